@@ -186,6 +186,89 @@ func (ff *fnFacts) At(b *ssa.BasicBlock) []condFact {
 	for _, nf := range direct {
 		out = append(out, ff.throughBoolPhi(nf, direct, 0)...)
 	}
+	for _, nf := range direct {
+		out = append(out, ff.throughMerge(nf, 0)...)
+	}
+	return out
+}
+
+// throughMerge: the branch form of throughBoolPhi. A test made in a block where several ways meet
+// (`if a && b {…} else if a {…}`: the second test of a stands where "a false" and "b false" meet) rules out the ways
+// in on which the same comparison, computed before, came out the other way; if one way is left, control came that
+// way, and what held there holds.
+func (ff *fnFacts) throughMerge(f condFact, depth int) []condFact {
+	x := f.Origin
+	if x == nil || depth > 2 || len(ff.preds[x]) < 2 {
+		return nil
+	}
+	fk := exprKey(f.Cond, 0)
+	var left *ssa.BasicBlock
+	var leftFacts []condFact
+	for _, p := range ff.preds[x] {
+		if ff.Dominates(x, p) {
+			return nil // a way round a loop: what held before the test is not what holds after a round
+		}
+		var ef []condFact
+		ef = append(ef, ff.atNoMerge(p)...)
+		if iff, ok := lastIf(p); ok && len(p.Succs) == 2 && p.Succs[0] != p.Succs[1] {
+			for i, sc := range p.Succs {
+				if sc == x && ff.feasible[p][i] {
+					for _, nf := range normFact(iff.Cond, i == 0) {
+						nf.Origin = p
+						ef = append(ef, nf)
+					}
+				}
+			}
+		}
+		contradicted := false
+		for _, e := range ef {
+			if e.Val != f.Val && (e.Cond == f.Cond || exprKey(e.Cond, 0) == fk) {
+				if _, isCmp := e.Cond.(*ssa.BinOp); isCmp || e.Cond == f.Cond {
+					contradicted = true
+				}
+			}
+		}
+		if contradicted {
+			continue
+		}
+		if left != nil {
+			return nil
+		}
+		left, leftFacts = p, ef
+	}
+	if left == nil {
+		return nil
+	}
+	out := append([]condFact(nil), leftFacts...)
+	for _, g := range leftFacts {
+		if g.Origin != nil && g.Origin != x {
+			out = append(out, ff.throughMerge(g, depth+1)...)
+		}
+	}
+	return out
+}
+
+// atNoMerge: the dominance facts at b (without the refinements through merges, which call this).
+func (ff *fnFacts) atNoMerge(b *ssa.BasicBlock) []condFact {
+	var out []condFact
+	for x := range ff.dom[b] {
+		iff, ok := lastIf(x)
+		if !ok {
+			continue
+		}
+		for i, s := range x.Succs {
+			if !ff.feasible[x][i] || (len(x.Succs) == 2 && x.Succs[0] == x.Succs[1]) {
+				continue
+			}
+			if len(ff.preds[s]) != 1 || ff.preds[s][0] != x || !ff.Dominates(s, b) {
+				continue
+			}
+			for _, nf := range normFact(iff.Cond, i == 0) {
+				nf.Origin = x
+				out = append(out, nf)
+			}
+		}
+	}
 	return out
 }
 
